@@ -131,8 +131,21 @@ func TestVerifC17TCPTLS(t *testing.T) {
 	pool := vfC17HelloPool(t, k, k.N(150, 1500))
 	k.Count("corpus_hellos", int64(len(pool)))
 	n := k.N(6000, 400000)
-	var cases []*vfC17TCPCase
-	for i := 0; i < n; i++ {
+	gen := func(i int) *vfC17TCPCase {
+		if i >= n { // random bytes behind a TLS-looking 3-byte probe
+			id := fmt.Sprintf("tlsjunk-%d", i-n)
+			r := k.Rand(id)
+			d := make([]byte, 3+r.Intn(2000))
+			r.Read(d)
+			d[0], d[1], d[2] = 0x16+byte(r.Intn(2)), 3, byte(r.Intn(10))
+			if len(d) >= 5 && r.Intn(2) == 0 {
+				vfC17SetRecLen(d, r.Intn(len(d)))
+			}
+			in := vfC17Input{Kind: "garbage:tls-probe", Mode: vfC17Untouched, Note: "random bytes behind a TLS record header", Data: d}
+			D := vfC17Timeouts[r.Intn(len(vfC17Timeouts))]
+			s, note := vfC17MakeSched(r, len(d), D, []int{0, 1, 2, 3, 4, 5, len(d)})
+			return &vfC17TCPCase{CaseID: id, In: in, Sched: s, SchedNote: note, Timeout: D, Dest: vfC17MakeDest(r, id)}
+		}
 		id := fmt.Sprintf("tls-%d", i)
 		r := k.Rand(id)
 		h := pool[r.Intn(len(pool))]
@@ -145,28 +158,12 @@ func TestVerifC17TCPTLS(t *testing.T) {
 		L := len(in.Data)
 		marks := []int{0, 1, 2, 3, 4, 5, 6, len(h.Record) - 1, len(h.Record), len(h.Record) + 1, len(h.Record) / 2, L - 1, L}
 		s, note := vfC17MakeSched(r, L, D, marks)
-		cases = append(cases, &vfC17TCPCase{CaseID: id, In: in, Sched: s, SchedNote: note, Timeout: timeout, Dest: vfC17MakeDest(r, fmt.Sprintf("t%d", i))})
+		return &vfC17TCPCase{CaseID: id, In: in, Sched: s, SchedNote: note, Timeout: timeout, Dest: vfC17MakeDest(r, fmt.Sprintf("t%d", i))}
 	}
-	// random bytes behind a TLS-looking 3-byte probe
-	for i := 0; i < n/20; i++ {
-		id := fmt.Sprintf("tlsjunk-%d", i)
-		r := k.Rand(id)
-		d := make([]byte, 3+r.Intn(2000))
-		r.Read(d)
-		d[0], d[1], d[2] = 0x16+byte(r.Intn(2)), 3, byte(r.Intn(10))
-		if len(d) >= 5 && r.Intn(2) == 0 {
-			vfC17SetRecLen(d, r.Intn(len(d)))
-		}
-		in := vfC17Input{Kind: "garbage:tls-probe", Mode: vfC17Untouched, Note: "random bytes behind a TLS record header", Data: d}
-		D := vfC17Timeouts[r.Intn(len(vfC17Timeouts))]
-		s, note := vfC17MakeSched(r, len(d), D, []int{0, 1, 2, 3, 4, 5, len(d)})
-		cases = append(cases, &vfC17TCPCase{CaseID: id, In: in, Sched: s, SchedNote: note, Timeout: D, Dest: vfC17MakeDest(r, id)})
-	}
-	vfC17RunTCPCases(t, k, cases)
-	for i, c := range cases {
+	vfC17RunTCPGen(t, k, n+n/20, gen, func(i int, c *vfC17TCPCase) {
 		if i%1499 == 11 {
 			k.Sample(map[string]any{"case_id": c.CaseID, "kind": c.In.Kind, "len": len(c.In.Data), "note": c.In.Note, "schedule": c.SchedNote,
 				"chunks": len(c.Sched.Chunks), "timeout": c.Timeout.String(), "dest": c.Dest.ReqAddr, "filter": c.Dest.Filter})
 		}
-	}
+	})
 }
